@@ -414,7 +414,7 @@ def c20_p1(ctx):
                     yield bad("C20-P1", key, at(f, s["span"]["line"]), "%s.progress <- %s, not the progress counter" % (ind, txt))
 
 
-@rule("C20", "C20-P2", 1, "the receiver's counter is written only by adding the insert operation's new-bytes result")
+@rule("C20", "C20-P2", 1, "the receiver's counter is written only by adding the insert operation's new-bytes result", also=("C17",))
 def c20_p2(ctx):
     fns = impl_and_closures(ctx, RECV)
     n = 0
